@@ -224,7 +224,8 @@ func cmdCheck(args []string) {
 				// only the lock-discipline obligations belong to this mode; the function's other obligations are checked under their own properties
 				var keep []*Obligation
 				for _, o := range fr.VC.obls {
-					if o.Kind == "guard" {
+					if o.Kind == "guard" || (o.Kind == "assert" && strings.Contains(o.Name, "#assert:race-")) {
+						// asserts labelled race-*: hand-off disciplines of plain fields that no lock guards (who may write them, and when)
 						keep = append(keep, o)
 					}
 				}
@@ -394,6 +395,13 @@ func cmdCheck(args []string) {
 			if !hits[r.root+"."+r.field] {
 				violations = append(violations, violation{Obligation: "guard-rule:" + r.root + "." + r.field, Reason: "no access to this guarded field was found in any function: the guarded_by rule no longer binds to the code", NoInput: true})
 			}
+		}
+	}
+	// structural contract of the wire format (C12): pinned json tags
+	if prop == "C12" {
+		_, badTags := env.jsonTagViolations()
+		for _, b := range badTags {
+			violations = append(violations, violation{Obligation: "jsontag:" + strings.SplitN(b, ":", 2)[0], Reason: "wire format changed: " + b, NoInput: true})
 		}
 	}
 	// lock file
@@ -719,14 +727,18 @@ func selfTest(prop string) map[string]interface{} {
 			continue
 		}
 		scratch, _ := os.MkdirTemp("", "vq-selftest-")
-		cp := exec.Command("cp", "-r", repo+"/.", scratch)
+		cp := exec.Command("rsync", "-a", "--exclude", ".git", repo+"/", scratch+"/")
 		if out, err := cp.CombinedOutput(); err != nil {
 			skipped = append(skipped, e.Name()+": copy failed: "+firstLines(string(out), 1))
 			os.RemoveAll(scratch)
 			continue
 		}
 		os.RemoveAll(filepath.Join(scratch, ".git"))
-		ap := exec.Command("patch", "-p1", "-s", "-f", "-i", filepath.Join(dir, e.Name(), "patch.diff"))
+		patchFile := filepath.Join(dir, e.Name(), "patch.head.diff") // the change re-based on the current HEAD, when the original no longer applies
+		if _, err := os.Stat(patchFile); err != nil {
+			patchFile = filepath.Join(dir, e.Name(), "patch.diff")
+		}
+		ap := exec.Command("patch", "-p1", "-s", "-f", "-i", patchFile)
 		ap.Dir = scratch
 		if out, err := ap.CombinedOutput(); err != nil {
 			skipped = append(skipped, e.Name()+": patch does not apply to the current tree: "+firstLines(string(out), 1))
